@@ -125,6 +125,11 @@ struct Oracle {
     timeout: Option<u64>,
     now: u64,
     life: BTreeMap<(usize, usize), Life>, // (kind, key index)
+    /// ids whose `Recency` entry may no longer describe the registered metric: 1 = the metric was removed from the
+    /// registry behind `Recency`'s back (`delete_*` / `clear`), so an entry may have outlived it (can only make a later
+    /// drop come too EARLY); 2 = a stale-snapshot `should_store_*` was made for it (can also delay a drop).  Verdict
+    /// failures on such ids are the finding K-C12-orphan-entry, not new violations.  Cleared when the id is dropped.
+    tainted: BTreeMap<(usize, usize), u8>,
 }
 
 struct Life {
@@ -136,7 +141,7 @@ struct Life {
 
 impl Oracle {
     fn new(mask: u8, timeout: Option<u64>) -> Oracle {
-        Oracle { mask, timeout, now: 0, life: BTreeMap::new() }
+        Oracle { mask, timeout, now: 0, life: BTreeMap::new(), tainted: BTreeMap::new() }
     }
     fn covered(&self, kind: usize) -> bool {
         self.timeout.is_some() && (self.mask >> kind) & 1 == 1
@@ -168,6 +173,88 @@ impl Oracle {
         l.seen_since_change.clear();
         l.changed_since_obs = true;
     }
+    fn taint(&mut self, id: (usize, usize), level: u8) {
+        if self.covered(id.0) {
+            let e = self.tainted.entry(id).or_insert(0);
+            *e = (*e).max(level);
+        }
+    }
+    /// `Registry::delete_*` from outside: the metric is gone (a later registration is a fresh series)
+    fn ext_delete(&mut self, id: (usize, usize)) -> bool {
+        let was = self.life.remove(&id).is_some();
+        if was {
+            self.taint(id, 1);
+        }
+        was
+    }
+    /// `Registry::clear`
+    fn ext_clear(&mut self) {
+        let ids: Vec<(usize, usize)> = self.life.keys().cloned().collect();
+        for id in ids {
+            self.ext_delete(id);
+        }
+    }
+    /// the finding's reproduction is always counted; it is an oracle failure only once known_findings.json lists it
+    fn orphan_finding(&self, out: &mut Out, what: &str, detail: &str) {
+        out.count("finding.orphan-entry: reproduced (a Recency entry that no longer describes the registered metric decided a drop)");
+        if known_has("K-C12-orphan-entry") {
+            out.oracle_fail(&format!("K-C12-orphan-entry: {}", what), detail);
+        }
+    }
+    /// one metric visited by a second observer through a handle of its live storage: kept or deleted?
+    fn observe_one(&mut self, id: (usize, usize), kept: bool, keys: &[String], out: &mut Out) {
+        let t = self.now;
+        let covered = self.covered(id.0);
+        let timeout = self.timeout;
+        let l = match self.life.get_mut(&id) {
+            Some(l) => l,
+            None => return,
+        };
+        let idle_too_long = match timeout {
+            Some(to) if covered => l.seen_since_change.iter().any(|t0| t - *t0 > to),
+            _ => false,
+        };
+        let detail = format!(
+            "{}:{} at t={} timeout={:?} (single visit by a second observer) observed-unchanged-at={:?} value {} kept={}",
+            KINDS[id.0], keys[id.1], t, timeout, l.seen_since_change, l.tally.tok(), kept
+        );
+        let changed = l.changed_since_obs;
+        if kept {
+            l.seen_since_change.push(t);
+            l.changed_since_obs = false;
+        } else {
+            self.life.remove(&id);
+        }
+        match (idle_too_long, kept) {
+            (true, false) => {
+                out.count("oracle.dropped");
+                self.tainted.remove(&id);
+            }
+            (false, true) => out.count("oracle.kept.single-visit"),
+            (true, true) => {
+                let what = "covered metric kept although unchanged since an observation made more than the timeout ago";
+                if self.tainted.get(&id) == Some(&2) {
+                    self.orphan_finding(out, what, &detail);
+                } else {
+                    out.oracle_fail(what, &detail);
+                }
+            }
+            (false, false) => {
+                let why = if !covered {
+                    "metric dropped although its kind is outside the mask or no timeout is set"
+                } else if changed {
+                    "metric dropped although it was updated (or created) since the previous observation"
+                } else {
+                    "metric dropped although idle for no longer than the timeout"
+                };
+                if covered && self.tainted.remove(&id).is_some() {
+                    self.orphan_finding(out, why, &detail);
+                } else {
+                    out.oracle_fail(why, &detail);
+                }
+            }
+        }
+    }
     /// `seen`: what the implementation still has after the observation: id ↦ (generation if visible, value token)
     fn observe(
         &mut self,
@@ -187,19 +274,23 @@ impl Oracle {
             let name = format!("{}:{}", KINDS[id.0], keys[id.1]);
             match (idle_too_long, seen.get(&id)) {
                 (true, Some(v)) => {
-                    out.oracle_fail(
-                        "covered metric kept although unchanged since an observation made more than the timeout ago",
-                        &format!(
-                            "{} at t={} timeout={:?} observed-unchanged-at={:?} still there as {:?}",
-                            name, t, self.timeout, l.seen_since_change, v
-                        ),
+                    let what = "covered metric kept although unchanged since an observation made more than the timeout ago";
+                    let detail = format!(
+                        "{} at t={} timeout={:?} observed-unchanged-at={:?} still there as {:?}",
+                        name, t, self.timeout, l.seen_since_change, v
                     );
                     l.seen_since_change.push(t);
                     l.changed_since_obs = false;
+                    if self.tainted.get(&id) == Some(&2) {
+                        self.orphan_finding(out, what, &detail);
+                    } else {
+                        out.oracle_fail(what, &detail);
+                    }
                 }
                 (true, None) => {
                     out.count("oracle.dropped");
                     self.life.remove(&id);
+                    self.tainted.remove(&id);
                 }
                 (false, None) => {
                     let why = if !covered {
@@ -209,19 +300,21 @@ impl Oracle {
                     } else {
                         "metric dropped although idle for no longer than the timeout"
                     };
-                    out.oracle_fail(
-                        why,
-                        &format!(
-                            "{} at t={} timeout={:?} mask={} observed-unchanged-at={:?} value was {}",
-                            name,
-                            t,
-                            self.timeout,
-                            self.mask,
-                            l.seen_since_change,
-                            l.tally.tok()
-                        ),
+                    let detail = format!(
+                        "{} at t={} timeout={:?} mask={} observed-unchanged-at={:?} value was {}",
+                        name,
+                        t,
+                        self.timeout,
+                        self.mask,
+                        l.seen_since_change,
+                        l.tally.tok()
                     );
                     self.life.remove(&id);
+                    if covered && self.tainted.remove(&id).is_some() {
+                        self.orphan_finding(out, why, &detail);
+                    } else {
+                        out.oracle_fail(why, &detail);
+                    }
                 }
                 (false, Some((gen, val))) => {
                     if *val != l.tally.tok() {
@@ -272,6 +365,17 @@ enum GOp {
     Observe,
     /// `PrometheusHandle::run_upkeep` (stream B only; stream A has nothing to drain into)
     Upkeep,
+    /// `Registry::delete_counter|gauge|histogram(key)` called from outside `Recency` (stream A only: public API of
+    /// metrics-util; `Recency` has no way to learn of it)
+    Del(usize, usize),
+    /// `Registry::clear()` (stream A only)
+    Clear,
+    /// a second observer takes its handle snapshot (`get_*_handles()` of all three kinds) — the first statement of each
+    /// loop of `get_recent_metrics` of an overlapping render (stream A only)
+    Snap,
+    /// that second observer's loop iteration for one metric of its (possibly stale) snapshot:
+    /// `should_store_*(key, handle.get_generation(), registry)`; no-op when the snapshot does not hold the metric
+    Stale(usize, usize),
 }
 
 #[derive(Clone, Debug)]
@@ -321,7 +425,7 @@ fn gen_case(r: &mut Rng, nkeys: usize, kinds: &[usize]) -> Case {
 
 fn gen_case_w(r: &mut Rng, nkeys: usize, kinds: &[usize], upkeep_weight: usize) -> Case {
     let mask = *r.pick(&[0u8, 1, 2, 4, 3, 5, 6, 7, 7, 7, 7, 3, 6]);
-    let timeout = if r.chance(1, 8) { None } else { Some(*r.pick(&[0u64, 1, 2, 3, 10, 10, 1000, 1_000_000_000])) };
+    let timeout = if r.chance(1, 8) { None } else { Some(*r.pick(&[0u64, 1, 2, 3, 10, 10, 1000, 1_000_000_000, 4_294_967_297, 10_000_000_000, 3_600_000_000_000])) };
     let steps = time_steps(timeout);
     let nops = r.range(4, 40);
     let mut ops = vec![];
@@ -398,6 +502,121 @@ fn corpus() -> Vec<Case> {
         // timeout zero
         Case { mask: 7, timeout: Some(0), ops: vec![u(0, 0, Upd::Inc(1)), Observe, Observe, Adv(1), Observe] },
     ]
+}
+
+/// histories with `Registry::delete_*` / `Registry::clear` from outside `Recency`, and with a second observer's stale
+/// handle snapshot (stream A only).  The first ones are the witnesses of K-C12-orphan-entry (Lean:
+/// C12.orphan_entry_drops_updated_metric, C12.overlapping_render_orphans_entry).
+fn corpus_del() -> Vec<Case> {
+    use GOp::{Adv, Clear, Del, Observe, Reg, Snap, Stale};
+    vec![
+        // W3: entry (1, 0) outlives delete_counter; the re-created counter (one increment: generation 1) is dropped at
+        // the first observation after T although created AND updated since the previous observation
+        Case { mask: 7, timeout: Some(10), ops: vec![u(0, 0, Upd::Inc(1)), Observe, Del(0, 0), u(0, 0, Upd::Inc(1)), Adv(11), Observe, Observe] },
+        // the same through clear(), gauge and histogram
+        Case { mask: 7, timeout: Some(10), ops: vec![u(1, 0, Upd::Set(4)), u(2, 1, Upd::Rec(3)), Observe, Clear, Adv(11), u(1, 0, Upd::Set(5)), u(2, 1, Upd::Rec(1)), Observe, Observe] },
+        // T early: re-created at t=8, first seen at t=9 (kept, the stale stamp 0 stays), dropped at t=11: idle for 2 <= T
+        Case { mask: 1, timeout: Some(10), ops: vec![u(0, 0, Upd::Inc(1)), Observe, Del(0, 0), Adv(8), u(0, 0, Upd::Inc(7)), Adv(1), Observe, Adv(2), Observe] },
+        // different generation after re-creation: the orphan entry is refreshed, nothing goes wrong
+        Case { mask: 7, timeout: Some(10), ops: vec![u(0, 0, Upd::Inc(1)), Observe, Del(0, 0), u(0, 0, Upd::Inc(1)), u(0, 0, Upd::Inc(1)), Adv(11), Observe, Adv(10), Observe, Adv(1), Observe] },
+        // delete of an absent metric / of a metric registered under another kind; outside the mask; no timeout
+        Case { mask: 7, timeout: Some(10), ops: vec![u(0, 0, Upd::Inc(1)), Del(1, 0), Del(0, 1), Observe, Adv(11), Observe] },
+        Case { mask: 2, timeout: Some(10), ops: vec![u(0, 0, Upd::Inc(1)), Observe, Del(0, 0), u(0, 0, Upd::Inc(1)), Adv(11), Observe, Adv(11), Observe] },
+        Case { mask: 7, timeout: None, ops: vec![u(0, 0, Upd::Inc(1)), Observe, Clear, u(0, 0, Upd::Inc(1)), Adv(11), Observe] },
+        // registered only (generation 0) before and after the delete
+        Case { mask: 7, timeout: Some(3), ops: vec![Reg(1, 2), Observe, Del(1, 2), Reg(1, 2), Adv(4), Observe, Observe] },
+        // W4: overlapping renders R1, R2 sequentialised at loop-iteration granularity: R2 snapshots, R1 (Observe) drops
+        // the idle counter and removes its entry, R2's iteration re-inserts (1, 11) and answers "keep"; the re-created
+        // counter is dropped 11 ticks later although just created and updated
+        Case { mask: 7, timeout: Some(10), ops: vec![u(0, 0, Upd::Inc(1)), Observe, Adv(11), Snap, Observe, Stale(0, 0), Adv(11), u(0, 0, Upd::Inc(1)), Observe, Observe] },
+        // R2's stale handle deletes the re-created metric outright
+        Case { mask: 7, timeout: Some(10), ops: vec![u(0, 0, Upd::Inc(1)), Observe, Adv(11), Snap, Observe, Stale(0, 0), u(0, 0, Upd::Inc(1)), Adv(11), Stale(0, 0), Observe] },
+        // a stale visit with a different generation restarts the timer of a live idle metric (kept too long)
+        Case { mask: 7, timeout: Some(10), ops: vec![u(1, 0, Upd::Set(1)), u(1, 0, Upd::Set(2)), Snap, Del(1, 0), u(1, 0, Upd::Set(3)), Observe, Adv(6), Stale(1, 0), Adv(6), Observe, Adv(6), Observe, Adv(11), Observe] },
+        // snapshot handle of a live metric: an ordinary second observer
+        Case { mask: 7, timeout: Some(10), ops: vec![u(0, 0, Upd::Inc(1)), Snap, Stale(0, 0), Adv(11), Stale(0, 0), Observe] },
+    ]
+}
+
+/// seeded scenes around an external delete: n updates, observe, delete / clear, n' updates (n' = n half of the time),
+/// clock steps around the timeout, observations
+fn gen_del_scene(r: &mut Rng) -> Case {
+    let mask = *r.pick(&[7u8, 7, 7, 1, 2, 4, 3, 6, 0]);
+    let timeout = if r.chance(1, 10) { None } else { Some(*r.pick(&[1u64, 2, 10, 10, 1000, 10_000_000_000])) };
+    let steps = time_steps(timeout);
+    let kind = r.below(3);
+    let key = r.below(2);
+    let mut ops = vec![];
+    let n = r.range(0, 3);
+    if n == 0 {
+        ops.push(GOp::Reg(kind, key));
+    }
+    for _ in 0..n {
+        ops.push(GOp::Upd(kind, key, gen_upd_single(r, kind)));
+    }
+    if r.chance(1, 3) {
+        let k2 = r.below(3);
+        ops.push(GOp::Upd(k2, r.below(2), gen_upd_single(r, k2)));
+    }
+    if r.chance(3, 4) {
+        ops.push(GOp::Observe);
+    }
+    if r.chance(1, 3) {
+        ops.push(GOp::Upd(kind, key, gen_upd_single(r, kind)));
+    }
+    ops.push(GOp::Adv(*r.pick(&steps)));
+    if r.chance(1, 3) {
+        ops.push(GOp::Snap);
+    }
+    ops.push(if r.chance(1, 4) { GOp::Clear } else { GOp::Del(kind, key) });
+    if r.chance(1, 4) {
+        ops.push(GOp::Observe);
+    }
+    ops.push(GOp::Adv(*r.pick(&steps)));
+    let n2 = if r.chance(1, 2) { n } else { r.range(0, 3) };
+    if n2 == 0 {
+        ops.push(GOp::Reg(kind, key));
+    }
+    for _ in 0..n2 {
+        ops.push(GOp::Upd(kind, key, gen_upd_single(r, kind)));
+    }
+    for _ in 0..r.range(1, 4) {
+        match r.below(5) {
+            0 => ops.push(GOp::Upd(kind, key, gen_upd_single(r, kind))),
+            1 => ops.push(GOp::Stale(kind, key)),
+            _ => {}
+        }
+        ops.push(GOp::Adv(*r.pick(&steps)));
+        ops.push(GOp::Observe);
+    }
+    Case { mask, timeout, ops }
+}
+
+/// an update that bumps the generation exactly once (`record_many(v, n)` is n updates)
+fn gen_upd_single(r: &mut Rng, kind: usize) -> Upd {
+    loop {
+        let u = gen_upd(r, kind);
+        if !matches!(u, Upd::RecMany(..)) {
+            return u;
+        }
+    }
+}
+
+/// sprinkle external deletes / clears / snapshot visits over a seeded history (stream A)
+fn sprinkle_del(r: &mut Rng, c: &mut Case, nkeys: usize) {
+    let n = r.range(1, 4);
+    for _ in 0..n {
+        let at = r.below(c.ops.len());
+        let kind = r.below(3);
+        let key = r.below(nkeys);
+        let op = match r.weighted(&[5, 1, 2, 3]) {
+            0 => GOp::Del(kind, key),
+            1 => GOp::Clear,
+            2 => GOp::Snap,
+            _ => GOp::Stale(kind, key),
+        };
+        c.ops.insert(at, op);
+    }
 }
 
 // ---------------------------------------------------------------------------------------------
@@ -486,6 +705,7 @@ fn run_registry_case(out: &mut Out, c: &Case) {
     let index_of = |k: &Key| rkeys.iter().position(|x| x == k).unwrap();
     let mut observes = 0;
     let drops_before = out.counters.get("oracle.dropped").cloned().unwrap_or(0);
+    let mut snapshot = None;
     for op in &c.ops {
         match op {
             GOp::Reg(kind, i) => {
@@ -582,6 +802,91 @@ fn run_registry_case(out: &mut Out, c: &Case) {
                 ));
             }
             GOp::Upkeep => {}
+            GOp::Del(kind, i) => {
+                let existed = match kind {
+                    0 => registry.delete_counter(&rkeys[*i]),
+                    1 => registry.delete_gauge(&rkeys[*i]),
+                    _ => registry.delete_histogram(&rkeys[*i]),
+                };
+                let was = oracle.ext_delete((*kind, *i));
+                if was != existed {
+                    out.oracle_fail(
+                        "Registry::delete_* answer is not whether the metric was registered",
+                        &format!("{}:{} answered {} registered {}", KINDS[*kind], keys[*i], existed, was),
+                    );
+                }
+                out.op(&format!("recency del {} {}", KINDS[*kind], hexs(&keys[*i])), if existed { "1" } else { "0" });
+                out.count(if existed { "op.del.registered" } else { "op.del.absent" });
+            }
+            GOp::Clear => {
+                registry.clear();
+                oracle.ext_clear();
+                let left = registry.get_counter_handles().len() + registry.get_gauge_handles().len() + registry.get_histogram_handles().len();
+                if left != 0 {
+                    out.oracle_fail("Registry::clear left metrics behind", &format!("{} metrics", left));
+                }
+                out.op("recency clear", "ok");
+                out.count("op.clear");
+            }
+            GOp::Snap => {
+                snapshot = Some((registry.get_counter_handles(), registry.get_gauge_handles(), registry.get_histogram_handles()));
+                out.count("op.snap");
+            }
+            GOp::Stale(kind, i) => {
+                // the generation is read from the snapshot's handle (it may belong to storage that has been deleted since)
+                let id = (*kind, *i);
+                // (generation passed, answer, snapshot handle is the storage registered under the key right now)
+                let visit: Option<(u64, bool, bool)> = snapshot.as_ref().and_then(|(cs, gs, hs)| match kind {
+                    0 => cs.get(&rkeys[*i]).map(|h| {
+                        let same = registry.get_counter(&rkeys[*i]).map(|c| Arc::ptr_eq(c.get_inner(), h.get_inner())).unwrap_or(false);
+                        let g = h.get_generation();
+                        (gen_number(g), recency.should_store_counter(&rkeys[*i], g, &registry), same)
+                    }),
+                    1 => gs.get(&rkeys[*i]).map(|h| {
+                        let same = registry.get_gauge(&rkeys[*i]).map(|c| Arc::ptr_eq(c.get_inner(), h.get_inner())).unwrap_or(false);
+                        let g = h.get_generation();
+                        (gen_number(g), recency.should_store_gauge(&rkeys[*i], g, &registry), same)
+                    }),
+                    _ => hs.get(&rkeys[*i]).map(|h| {
+                        let same = registry.get_histogram(&rkeys[*i]).map(|c| Arc::ptr_eq(c.get_inner(), h.get_inner())).unwrap_or(false);
+                        let g = h.get_generation();
+                        (gen_number(g), recency.should_store_histogram(&rkeys[*i], g, &registry), same)
+                    }),
+                });
+                if let Some((g, keep, same)) = visit {
+                    let registered = match kind {
+                        0 => registry.get_counter(&rkeys[*i]).is_some(),
+                        1 => registry.get_gauge(&rkeys[*i]).is_some(),
+                        _ => registry.get_histogram(&rkeys[*i]).is_some(),
+                    };
+                    out.op(
+                        &format!("recency stale {} {} {}", KINDS[*kind], hexs(&keys[*i]), g),
+                        &format!("{}/{}", if keep { 1 } else { 0 }, if registered { 1 } else { 0 }),
+                    );
+                    out.count(&format!("op.stale.{}.{}", if same { "live-handle" } else { "stale-handle" }, if keep { "keep" } else { "delete" }));
+                    if !oracle.covered(*kind) && !keep {
+                        out.oracle_fail("should_store_* answered false for a kind outside the mask / without a timeout", &format!("{}:{}", KINDS[*kind], keys[*i]));
+                    }
+                    if same {
+                        // an ordinary observation of this one metric by a second observer
+                        oracle.observe_one(id, keep, &keys, out);
+                    } else if keep {
+                        // may have (re-)inserted or re-stamped the entry with the generation of storage that is gone
+                        oracle.taint(id, 2);
+                    } else if let Some(l) = oracle.life.get(&id) {
+                        // `false` = the metric registered under the key NOW was deleted on the word of another storage's generation
+                        let detail = format!(
+                            "{}:{} at t={} timeout={:?}: should_store_* with the generation {} of a snapshot handle (storage deleted since) deleted the registered metric (generation {}, value {}, updated since the previous observation: {})",
+                            KINDS[*kind], keys[*i], oracle.now, c.timeout, g, l.updates, l.tally.tok(), l.changed_since_obs
+                        );
+                        oracle.orphan_finding(out, "an overlapping observer's snapshot handle decided the deletion of the metric now registered under the key", &detail);
+                        oracle.life.remove(&id);
+                        oracle.tainted.remove(&id);
+                    }
+                } else {
+                    out.count("op.stale.not-in-snapshot");
+                }
+            }
             GOp::Observe => {
                 observes += 1;
                 // the loop of `Inner::get_recent_metrics`
@@ -897,6 +1202,7 @@ fn run_prom_case(out: &mut Out, c: &Case, buckets: bool, gsel: usize) {
                 out.op(&format!("promidle adv {}", n), "ok");
                 out.count("op.adv");
             }
+            GOp::Del(..) | GOp::Clear | GOp::Snap | GOp::Stale(..) => {}
             GOp::Upkeep => {
                 handle.run_upkeep();
                 out.op("promidle upkeep", "ok");
@@ -1076,6 +1382,10 @@ pub fn run(cfg: &Cfg, out: &mut Out) {
             run_prom_case(out, c, (n + g) % 2 == 0, g);
         }
     }
+    for (n, c) in corpus_del().iter().enumerate() {
+        out.case(&format!("corpus-del={} stream=A", n));
+        run_registry_case(out, c);
+    }
     for g in 0..GLOBALS.len() {
         out.case(&format!("prom-collision globals={} stream=B", g));
         run_prom_collision(out, g);
@@ -1113,7 +1423,14 @@ pub fn run(cfg: &Cfg, out: &mut Out) {
                 2 => &[0, 2],
                 _ => &[0, 1, 2],
             };
-            let c = gen_case(&mut r, 3, kinds);
+            let mut c = gen_case(&mut r, 3, kinds);
+            // external deletes / clears / a second observer's snapshot: a scene built around one delete (1 of 6),
+            // or sprinkled over the seeded history (2 of 6)
+            match i % 6 {
+                1 => c = gen_del_scene(&mut r),
+                2 | 5 => sprinkle_del(&mut r, &mut c, 3),
+                _ => {}
+            }
             out.case(&format!("seed={} i={} stream=A", cfg.seed, i));
             run_registry_case(out, &c);
         } else {
@@ -1331,6 +1648,149 @@ pub fn run_concurrent(cfg: &Cfg, out: &mut Out) {
     }
     // updates racing the idle deletion (Model/IdleRace)
     run_idle_race(cfg, out);
+    run_overlap_renders(out);
+}
+
+// ---------------------------------------------------------------------------------------------
+// overlapping renders of the shipped exporter (K-C12-orphan-entry, second route), under the deterministic scheduler.
+//
+// `PrometheusHandle` is `Clone` and `render(&self)`: two threads can be inside `get_recent_metrics` at once.  Scene
+// (idle_timeout 10 ticks, all kinds): register a counter / gauge, one update, render at t=0 (entry (1, 0)), clock +11.
+// R2 runs up to its first `prom.render.gen_read` (it has taken its handle snapshot and read generation 1), R1 renders
+// completely (the idle metric is deleted, its entry removed), R2 continues: `should_store_*(key, 1)` finds no entry,
+// inserts (1, 11) and answers "keep" for a metric that is no longer registered.  Clock +11; the metric is registered
+// and updated anew (generation 1); the next render must show it (created AND updated since the previous observation).
+// R2 is never granted while R1 is inside `should_store` (R1 runs to completion), so the `Recency` mutex never blocks a
+// managed thread.  Control: the same scene with R2 after R1.  Both are replayed on the Lean model (`recency …` with
+// `stalekeep` for R2's iteration).
+fn ov_shown(text: &str, name: &str) -> Option<u64> {
+    let fams = expo::check_exposition(text).ok()?;
+    let f = fams.iter().find(|f| f.name == name)?;
+    f.samples.first().and_then(|x| x.2.parse::<f64>().ok()).map(|v| v as u64)
+}
+
+fn overlap_scene(out: &mut Out, kind: usize, overlap: bool, n_after: usize) {
+    use std::sync::Mutex;
+    let name: &'static str = if kind == 0 { "ov_ctr" } else { "ov_gge" };
+    let key = Key::from_name(name);
+    let timeout = 10u64;
+    let upd = move |rec: &metrics_exporter_prometheus::PrometheusRecorder, key: &Key| {
+        if kind == 0 {
+            rec.register_counter(key, &META).increment(1)
+        } else {
+            rec.register_gauge(key, &META).increment(1.0)
+        }
+    };
+    let prelude = || {
+        let (clock, mock) = Clock::mock();
+        let rec = Arc::new(PrometheusBuilder::new().idle_timeout(mask_of(7), Some(Duration::from_nanos(timeout))).verif_build_with_clock(clock));
+        let handle = rec.handle();
+        upd(&rec, &key);
+        let first = ov_shown(&handle.render(), name);
+        mock.increment(timeout + 1);
+        (rec, handle, mock, first)
+    };
+    // probe (on a recorder of its own): how many grants take a lone render to its first `prom.render.gen_read`?
+    let grants_to_gen_read = {
+        let (_rec, handle, _mock, _) = prelude();
+        let body: Box<dyn FnOnce() + Send + 'static> = Box::new(move || {
+            let _ = handle.render();
+        });
+        let run = crate::sched::run(vec![body], &[]);
+        run.trace.iter().position(|(_, p)| *p == "prom.render.gen_read")
+    };
+    let j = match grants_to_gen_read {
+        Some(j) => j,
+        None => {
+            out.oracle_fail("overlapping renders: a render of a registered counter/gauge never reaches prom.render.gen_read", name);
+            return;
+        }
+    };
+    let (rec, handle, mock, first) = prelude();
+    let hexname = hexs(name);
+    let kc = KINDS[kind];
+    let upd_tok = if kind == 0 { "inc:1" } else { "add:1" };
+    let show = |v: Option<u64>| match v {
+        Some(v) => format!("{}/{}/{}", kc, hexname, v),
+        None => ".".to_string(),
+    };
+    out.op(&format!("recency new 7 {} 1", timeout), "ok");
+    out.op(&format!("recency upd {} {} {}", kc, hexname, upd_tok), "ok");
+    out.op("recency render", &show(first));
+    out.op(&format!("recency adv {}", timeout + 1), "ok");
+    let vals: Arc<Mutex<Vec<Option<u64>>>> = Arc::new(Mutex::new(vec![None, None]));
+    let mut bodies: Vec<Box<dyn FnOnce() + Send + 'static>> = vec![];
+    for t in 0..2 {
+        let handle = handle.clone();
+        let vals = vals.clone();
+        bodies.push(Box::new(move || {
+            let v = ov_shown(&handle.render(), name);
+            vals.lock().unwrap()[t] = v;
+        }));
+    }
+    let mut schedule = if overlap { vec![1usize; j] } else { vec![] };
+    schedule.extend(std::iter::repeat(0usize).take(200));
+    let run = crate::sched::run(bodies, &schedule);
+    if run.deadlock || run.timed_out || !run.panicked.is_empty() {
+        out.oracle_fail("overlapping renders: the scheduled run did not complete", &format!("{:?} deadlock={} timed_out={} panicked={:?}", run.trace, run.deadlock, run.timed_out, run.panicked));
+        return;
+    }
+    let r1_delete = run.trace.iter().position(|(t, p)| *t == 0 && *p == "reg.delete");
+    let r2_gen_read = run.trace.iter().position(|(t, p)| *t == 1 && *p == "prom.render.gen_read");
+    let reached = overlap && matches!((r1_delete, r2_gen_read), (Some(a), Some(b)) if a < b);
+    let (v1, v2) = {
+        let v = vals.lock().unwrap();
+        (v[0], v[1])
+    };
+    out.op("recency render", &show(v1));
+    if reached {
+        // R2's iteration: the answer "keep" is visible as the (deleted) metric in R2's output
+        out.op(&format!("recency stalekeep {} {} 1", kc, hexname), if v2.is_some() { "1" } else { "0" });
+        out.count("overlap.reached (R2 parked at gen_read across R1's delete)");
+    } else {
+        out.op("recency render", &show(v2));
+        out.count("overlap.control (R2 after R1)");
+    }
+    if overlap && !reached {
+        out.oracle_fail("overlapping renders: the schedule did not put R1's delete between R2's generation read and R2's should_store", &format!("{:?}", run.trace));
+    }
+    if v1.is_some() {
+        out.oracle_fail("a metric unchanged since an observation made more than the timeout ago is still shown", &format!("{} by R1: {:?}", name, v1));
+    }
+    mock.increment(timeout + 1);
+    out.op(&format!("recency adv {}", timeout + 1), "ok");
+    for _ in 0..n_after {
+        upd(&rec, &key);
+        out.op(&format!("recency upd {} {} {}", kc, hexname, upd_tok), "ok");
+    }
+    let after = ov_shown(&handle.render(), name);
+    out.op("recency render", &show(after));
+    let detail = format!(
+        "{} `{}`, idle_timeout {} ticks: 1 update, render at t=0 -> {:?}, clock +11; R2 = render() up to its first generation read ({} grants), R1 = render() completely -> {:?}, R2 continues -> {:?}; clock +11; registered anew + {} update(s); render -> {:?} (expected {}); grants {:?}",
+        if kind == 0 { "counter" } else { "gauge" }, name, timeout, first, j, v1, v2, n_after, after, n_after, run.trace
+    );
+    if after != Some(n_after as u64) {
+        if reached {
+            out.count("finding.orphan-entry: reproduced on the exporter (two overlapping renders leave an entry behind; the re-created metric is dropped)");
+            if known_has("K-C12-orphan-entry") {
+                out.oracle_fail("K-C12-orphan-entry: overlapping renders: metric dropped although it was created and updated since the previous observation", &detail);
+            }
+        } else {
+            out.oracle_fail("metric dropped although it was updated (or created) since the previous observation", &detail);
+        }
+    } else {
+        out.count("overlap.after.kept");
+    }
+    out.nontrivial();
+}
+
+pub fn run_overlap_renders(out: &mut Out) {
+    for kind in 0..2 {
+        for (overlap, n_after) in [(true, 1usize), (true, 2), (false, 1), (false, 2)] {
+            out.case(&format!("overlapping renders kind={} overlap={} updates-after={}", kind, overlap, n_after));
+            overlap_scene(out, kind, overlap, n_after);
+        }
+    }
 }
 
 // ---------------------------------------------------------------------------------------------
